@@ -8,7 +8,7 @@
       conversion with its `delta_` offset refusal (1903-1974), the multiply/divide refusal
       (1983-1992), the unary path (`sqrt`, `square`, `reciprocal`, `cbrt`, `power`, reductions)
     * unyt/unit_object.py `Unit.__eq__`, `Unit.__mul__/__truediv__/__pow__` offset rules (through
-      `UnytModel.Unit`), `_get_conversion_factor` with the prefix-aware offset (928-941)
+      `UnytModel.Unit`; the offset refusal of `__pow__` is `unitPow` here), `_get_conversion_factor` with the prefix-aware offset (928-941)
     * unyt/unit_systems.py `_split_prefix`
     * unyt/_array_functions.py `diff_helper` (diff / ediff1d / ptp)
 
@@ -209,10 +209,17 @@ def binaryPrep (rule : Rule) (tab : TTable K) (u0 u1 : TU K) : Except Err (Optio
         | .ok u => .ok (some u, c)
       | .comparison => .ok (none, c)
 
-/-- `x0 + x1`, `np.add`, `+=` on two temperature quantities: label and reading -/
+/-- `x0 + x1`, `np.add`, `+=` on two temperature quantities: label and reading.
+    array.py (conversion block of the binary path): when the operands' units differ and the sum will
+    be labelled with the second unit (`_preserve_units`: offset-free first unit, second unit with an
+    offset — difference + point), the *first* operand is rescaled by `u0.base_value / u1.base_value`;
+    otherwise the second operand is rescaled to the first unit. -/
 def tempAdd (tab : TTable K) (u0 : TU K) (x0 : K) (u1 : TU K) (x1 : K) : Except Err (TU K × K) :=
   match binaryPrep .preserve tab u0 u1 with
-  | .ok (some u, c) => .ok (u, x0 + applyC c x1)
+  | .ok (some u, c) =>
+    if !hasOffset tab u0 && hasOffset tab u1 then
+      .ok (u, applyC (c.map fun _ => u0.scale tab / u1.scale tab) x0 + x1)
+    else .ok (u, x0 + applyC c x1)
   | .ok (none, _) => .error .Other
   | .error e => .error e
 
@@ -238,9 +245,12 @@ def reduceUnit (rule : Rule) (tab : TTable K) (u : TU K) : Except Err (Option (T
   | .comparison => .ok none
 
 /-- _array_functions.py `diff_helper` (np.diff, np.ediff1d, np.ptp) on a temperature array:
-    refuses offset units, labels everything else `delta_degC` without touching the numbers -/
+    refuses offset units; a unit equal to `delta_degC` (`Unit.__eq__`: K, delta_degC) is labelled
+    `delta_degC`, any other offset-free unit keeps its own unit; the numbers are not touched -/
 def diffHelper (tab : TTable K) (u : TU K) : Except Err (TU K) :=
-  if hasOffset tab u then .error .InvalidUnitOperation else .ok (TU.bare .dC)
+  if hasOffset tab u then .error .InvalidUnitOperation
+  else if unitEq tab u (TU.bare .dC) then .ok (TU.bare .dC)
+  else .ok u
 
 /-- one difference `x[i+1] - x[i]` as `np.diff` returns it -/
 def tempDiff (tab : TTable K) (u : TU K) (xa xb : K) : Except Err (TU K × K) :=
@@ -334,52 +344,25 @@ inductive UnOp
   | mulReduce (n : Nat)    -- `np.multiply.reduce`, `np.prod` over `n` elements
 deriving Repr
 
+/-- unit_object.py `Unit.__pow__` on a unit of the family: a unit with an offset refuses every
+    exponent but 0 and 1 (`InvalidUnitOperation`); otherwise the shared `UnitV.pow` -/
+def unitPow (tab : TTable K) (u : TU K) (p : Rat) : Except Err (UnitV K) :=
+  if (u.offset tab != 0) && p != 0 && p != 1 then .error .InvalidUnitOperation
+  else (toUnitV tab u).pow p
+
 /-- `_sqrt_unit`, `_cbrt_unit`, `_square_unit`, `_reciprocal_unit`, `_power_unit`,
-    `_apply_power_mapping`: the result unit.  `Unit.__pow__` resets the offset and does not refuse. -/
+    `_apply_power_mapping`: the result unit (`unit**0.5`, `unit**(1/3)`, `unit*unit`, `unit**-1`,
+    `unit**p`, `unit**n`) -/
 def tempUnary (tab : TTable K) (op : UnOp) (u : TU K) : Except Err (UnitV K) :=
   let v := toUnitV tab u
   match op with
-  | .sqrt => v.pow (1 / 2)
-  | .cbrt => v.pow (1 / 3)
+  | .sqrt => unitPow tab u (1 / 2)
+  | .cbrt => unitPow tab u (1 / 3)
   | .square => v.mul v
-  | .reciprocal => v.pow (-1)
-  | .power p => v.pow p
-  | .mulReduce n => v.pow n
+  | .reciprocal => unitPow tab u (-1)
+  | .power p => unitPow tab u p
+  | .mulReduce n => unitPow tab u n
 
 end mulpow
-
-/-! ### candidate repairs (design.d/C08.md; not what the current tree does — the driver serves them
-    under `c08.fixed.*` so that applying a repair to unyt is a one-word change in the harness) -/
-section repairs
-variable {K : Type} [Add K] [Sub K] [Mul K] [Div K] [OfNat K 0] [OfNat K 1] [BEq K] [IsClose K]
-
-/-- repair 1: when the sum will be labelled with the second unit (difference + point), rescale
-    the *first* operand to that unit instead of the second to the first -/
-def tempAddFixed (tab : TTable K) (u0 : TU K) (x0 : K) (u1 : TU K) (x1 : K) : Except Err (TU K × K) :=
-  if krGuard tab u0 u1 then .error .UnitOperationError
-  else
-    match convSecond tab u0 u1 with
-    | .error e => .error e
-    | .ok c =>
-      if !hasOffset tab u0 && hasOffset tab u1 then
-        .ok (u1, applyC (c.map fun _ => u0.scale tab / u1.scale tab) x0 + x1)
-      else .ok (u0, x0 + applyC c x1)
-
-/-- repair 3: `diff_helper` keeps the unit of an offset-free temperature array -/
-def tempDiffFixed (tab : TTable K) (u : TU K) (xa xb : K) : Except Err (TU K × K) :=
-  if hasOffset tab u then .error .InvalidUnitOperation else .ok (u, xb - xa)
-
-/-- repair 2: `Unit.__pow__` refuses a unit with an offset unless the exponent is 1 -/
-def tempUnaryFixed [RPow K] (tab : TTable K) (op : UnOp) (u : TU K) : Except Err (UnitV K) :=
-  let refuse (p : Rat) : Bool := hasOffset tab u && p != 1
-  match op with
-  | .sqrt => if refuse (1 / 2) then .error .InvalidUnitOperation else tempUnary tab op u
-  | .cbrt => if refuse (1 / 3) then .error .InvalidUnitOperation else tempUnary tab op u
-  | .reciprocal => if refuse (-1) then .error .InvalidUnitOperation else tempUnary tab op u
-  | .power p => if refuse p then .error .InvalidUnitOperation else tempUnary tab op u
-  | .mulReduce n => if refuse n then .error .InvalidUnitOperation else tempUnary tab op u
-  | .square => tempUnary tab op u
-
-end repairs
 
 end Unyt.Temp
